@@ -1,13 +1,846 @@
-//! C09: generators and executor (see DESIGN.md section 4, C09).
+//! C09: the on-disk format matches docs/storage.md and stays readable (DESIGN.md section 4, C09).
+//!
+//! Case kinds (one JSON object per line):
+//!   c09:selftest  the Lean specifications' self tests (out = all true)
+//!   c09:consts    constants extracted from the source text of the tree the harness is built against (and from the
+//!                 library at run time for the AEAD sizes) — the model states the DOCUMENTED values in the same shape
+//!   c09:b58       Base58 of the Lean spec against the `bs58` crate (the one the library uses)
+//!   c09:read      the LIBRARY writes a file store (key method raw / none / kdf:argon2i int|mod, several profiles, both
+//!                 kinds, both tag kinds, empty / unicode / binary values, replace + remove), closes it; the raw tables are
+//!                 dumped out of band with `RawDb` and handed to the Lean spec (`model_input.raw`, plus — for derived keys —
+//!                 the Argon2i output computed HERE with the `argon2` crate and the documented libsodium parameter sets);
+//!                 out = the library's own logical dump + the stored bytes of every deterministic field; the model must
+//!                 decrypt EVERY row to the same dump and re-encrypt the deterministic fields to the same bytes
+//!   c09:write     the LEAN SPEC writes the store: the executor asks the compiled driver for the encrypted rows of the case
+//!                 (`emit: rows`), creates the SQLite file with `RawDb` (DDL of the released format, no query semantics),
+//!                 inserts the rows, and the library must open it with the pass key and show identical contents — by scan,
+//!                 by `fetch` of every record (searchable category / name) and by tag filters (searchable tag name / value)
+//!   c09:golden    a store file written by the UNMODIFIED PINNED tree (golden/<method>.db) is copied, opened by the current
+//!                 code and compared with its recorded dump (oracle); the Lean spec decrypts it too (out, as c09:read)
+//!
+//! The oracle judges the property without the Lean model: documented lengths (nonce 12 + tag 16), equal plaintext ⇒
+//! equal searchable ciphertext and different plaintext ⇒ different, config rows and version, key-entry shape, profile key
+//! size, the library's dump = what was written (read), = the case's records (write), = the recorded dump (golden).
+use crate::canon::{err_name, kind_of, tags_from_json, value_from_json, Rec, Tag};
+use crate::rawsql::{RawDb, Val};
 use crate::rng::Rng;
-use serde_json::{json, Value};
+use crate::store_case::{cleanup, dump_profile, scratch_dir};
+use askar_storage::any::AnyBackend;
+use askar_storage::backend::{Backend, BackendSession, ManageBackend};
+use askar_storage::entry::{EntryOperation, TagFilter};
+use askar_storage::future::block_on;
+use askar_storage::{Argon2Level, KdfMethod, PassKey, StoreKeyMethod};
+use serde_json::{json, Map, Value};
+use std::collections::{BTreeMap, BTreeSet};
+use std::io::Write;
 
-/// generated cases for this property (each a JSON object with "kind": "c09…")
-pub fn gen(_r: &mut Rng, _thorough: bool, _count: Option<usize>) -> Vec<Value> {
-    vec![]
+fn s(v: &Value, k: &str) -> String { v[k].as_str().unwrap_or("").to_string() }
+
+// ---------------------------------------------------------------------------------------------
+// key methods
+
+fn method_of(m: &str) -> StoreKeyMethod {
+    match m {
+        "raw" => StoreKeyMethod::RawKey,
+        "none" => StoreKeyMethod::Unprotected,
+        "kdf:int" => StoreKeyMethod::DeriveKey(KdfMethod::Argon2i(Argon2Level::Interactive)),
+        _ => StoreKeyMethod::DeriveKey(KdfMethod::Argon2i(Argon2Level::Moderate)),
+    }
 }
 
-/// run one case against the real code; returns {"out": …, "oracle": […], "feat": {…}}
-pub fn exec(_case: &Value, _tag: &str) -> Value {
-    json!({"out": {"err": "not implemented"}})
+fn passkey(m: &str, pass: &str) -> PassKey<'static> {
+    if m == "none" { PassKey::from(None::<&'static str>) } else { PassKey::from(pass.to_string()) }
+}
+
+/// The parameter sets behind the level names of the key entry: libsodium's crypto_pwhash_argon2i
+/// OPSLIMIT/MEMLIMIT INTERACTIVE (4 passes, 32 MiB) and MODERATE (6 passes, 128 MiB), one lane, version 0x13,
+/// 32 bytes of output.  Computed with the `argon2` crate directly — nothing of askar is involved.
+fn doc_params(level: &str) -> (u32, u32, u32) {
+    if level == "int" { (32 * 1024, 4, 1) } else { (128 * 1024, 6, 1) }
+}
+
+fn derive_doc(level: &str, pass: &str, salt: &[u8]) -> Result<Vec<u8>, String> {
+    let (m, t, p) = doc_params(level);
+    let params = argon2::Params::new(m, t, p, Some(32)).map_err(|e| e.to_string())?;
+    let a = argon2::Argon2::new(argon2::Algorithm::Argon2i, argon2::Version::V0x13, params);
+    let mut out = vec![0u8; 32];
+    a.hash_password_into(pass.as_bytes(), salt, &mut out).map_err(|e| e.to_string())?;
+    Ok(out)
+}
+
+fn kdf_json(level: &str, salt: &[u8], key: &[u8]) -> Value {
+    let (m, t, p) = doc_params(level);
+    json!({"level": level, "salt": hex::encode(salt), "key": hex::encode(key), "mem_kib": m, "passes": t, "lanes": p,
+           "version": 0x13, "variant": "Argon2i"})
+}
+
+/// `kdf:argon2i:13:<level>?salt=<hex>` → (level, salt); anything else → None (shape judged by the oracle)
+fn split_kdf_entry(entry: &str) -> Option<(String, Vec<u8>)> {
+    let rest = entry.strip_prefix("kdf:argon2i:13:")?;
+    let (level, q) = rest.split_once("?salt=")?;
+    if level != "int" && level != "mod" { return None; }
+    let salt = hex::decode(q).ok()?;
+    if salt.len() != 16 || q.bytes().any(|c| c.is_ascii_uppercase()) { return None; }
+    Some((level.to_string(), salt))
+}
+
+// ---------------------------------------------------------------------------------------------
+// raw dump of a store file
+
+fn jopt_text(v: &Val) -> Value { match v { Val::Null => Value::Null, x => json!(x.as_text()) } }
+
+fn raw_dump(path: &str) -> Result<Value, String> {
+    let db = RawDb::open(path)?;
+    let config: Vec<Value> = db.query("SELECT name, value FROM config ORDER BY name", &[])?
+        .iter().map(|r| json!([r[0].as_text(), r[1].as_text()])).collect();
+    let profiles: Vec<Value> = db.query("SELECT id, name, profile_key FROM profiles ORDER BY id", &[])?
+        .iter().map(|r| json!([r[0].as_int(), r[1].as_text(), hex::encode(r[2].as_blob())])).collect();
+    let items: Vec<Value> = db.query("SELECT id, profile_id, kind, category, name, value, expiry FROM items ORDER BY id", &[])?
+        .iter().map(|r| json!([r[0].as_int(), r[1].as_int(), r[2].as_int(), hex::encode(r[3].as_blob()), hex::encode(r[4].as_blob()),
+                               hex::encode(r[5].as_blob()), jopt_text(&r[6])])).collect();
+    let tags: Vec<Value> = db.query("SELECT id, item_id, name, value, plaintext FROM items_tags ORDER BY id", &[])?
+        .iter().map(|r| json!([r[0].as_int(), r[1].as_int(), hex::encode(r[2].as_blob()), hex::encode(r[3].as_blob()), r[4].as_int()])).collect();
+    // column types as stored (a BLOB column holding TEXT would be a format change the hex dump hides)
+    let mut typing = vec![];
+    for (t, cols) in [("items", "category, name, value"), ("items_tags", "name, value"), ("profiles", "profile_key")] {
+        for c in cols.split(", ") {
+            let rows = db.query(&format!("SELECT DISTINCT typeof({}) FROM {} ORDER BY 1", c, t), &[])?;
+            typing.push(json!([format!("{}.{}", t, c), rows.iter().map(|r| r[0].as_text()).collect::<Vec<_>>()]));
+        }
+    }
+    Ok(json!({"config": config, "profiles": profiles, "items": items, "tags": tags, "typing": typing}))
+}
+
+/// the stored bytes of the deterministic fields, item by item (id order): [cat, name, value, [[tag name, tag value, plaintext]…]]
+fn det_of(raw: &Value) -> Value {
+    let mut out = vec![];
+    for it in raw["items"].as_array().cloned().unwrap_or_default() {
+        let id = it[0].as_i64().unwrap_or(0);
+        let tags: Vec<Value> = raw["tags"].as_array().cloned().unwrap_or_default().into_iter()
+            .filter(|t| t[1].as_i64() == Some(id)).map(|t| json!([t[2], t[3], t[4]])).collect();
+        out.push(json!([it[3], it[4], it[5], tags]));
+    }
+    Value::Array(out)
+}
+
+fn oracle_fail(v: &mut Vec<Value>, sig: String, detail: Value) {
+    if v.len() < 20 { v.push(json!({"sig": sig, "detail": detail})); }
+}
+
+/// Format facts of the document, checked on the raw rows without any decryption.
+/// `plain`: per item id the plaintext (cat, name, value, tags) when the harness knows it (read direction).
+fn format_oracle(ctx: &str, method: &str, raw: &Value, plain: Option<&BTreeMap<i64, (i64, Rec)>>, fails: &mut Vec<Value>, feat: &mut BTreeMap<String, u64>) {
+    let cfg: BTreeMap<String, String> = raw["config"].as_array().cloned().unwrap_or_default().iter().map(|r| (r[0].as_str().unwrap_or("").to_string(), r[1].as_str().unwrap_or("").to_string())).collect();
+    let names: Vec<&str> = cfg.keys().map(|x| x.as_str()).collect();
+    if names != ["default_profile", "key", "version"] { oracle_fail(fails, format!("{}:config-entries:{}", ctx, method), json!(names)); }
+    if cfg.get("version").map(|x| x.as_str()) != Some("1") { oracle_fail(fails, format!("{}:config-version:{}", ctx, method), json!(cfg.get("version"))); }
+    let key = cfg.get("key").cloned().unwrap_or_default();
+    let key_ok = match method { "raw" => key == "raw", "none" => key == "none",
+        m => split_kdf_entry(&key).map_or(false, |(l, _)| format!("kdf:{}", l) == m) };
+    if !key_ok { oracle_fail(fails, format!("{}:config-key-entry-shape:{}", ctx, method), json!(key)); }
+    // profile key: CBOR map of 7 members = 1 + (4+2) + 6*(4+2+32) = 235 bytes; wrapped: + nonce 12 + tag 16
+    let want = if method == "none" { 235 } else { 235 + 28 };
+    for p in raw["profiles"].as_array().cloned().unwrap_or_default() {
+        let l = p[2].as_str().unwrap_or("").len() / 2;
+        if l != want { oracle_fail(fails, format!("{}:profile-key-size:{}:{}", ctx, method, l), json!(p[1])); }
+        if method == "none" && !p[2].as_str().unwrap_or("").starts_with("a763766572613163") { // {7: "ver": "1", …
+            oracle_fail(fails, format!("{}:profile-key-not-cbor-ver-1:{}", ctx, method), json!(p[1]));
+        }
+    }
+    for t in raw["typing"].as_array().cloned().unwrap_or_default() {
+        let tys: Vec<String> = t[1].as_array().cloned().unwrap_or_default().iter().map(|x| x.as_str().unwrap_or("").to_string()).collect();
+        if tys.iter().any(|x| x != "blob") { oracle_fail(fails, format!("{}:column-not-blob:{}", ctx, t[0].as_str().unwrap_or("")), json!(tys)); }
+    }
+    let Some(plain) = plain else { return };
+    // searchable fields: length = 12 + |plaintext| + 16; same plaintext ⇔ same ciphertext (within a profile and column)
+    let mut seen: BTreeMap<(i64, &'static str, Vec<u8>), String> = BTreeMap::new();
+    let mut seen_rev: BTreeMap<(i64, &'static str, String), Vec<u8>> = BTreeMap::new();
+    let mut check = |pid: i64, col: &'static str, pt: &[u8], ct: &str, fails: &mut Vec<Value>| {
+        if ct.len() / 2 != pt.len() + 28 { oracle_fail(fails, format!("{}:searchable-length:{}", ctx, col), json!({"pt": pt.len(), "ct": ct.len() / 2})); }
+        if let Some(prev) = seen.insert((pid, col, pt.to_vec()), ct.to_string()) {
+            if prev != ct { oracle_fail(fails, format!("{}:searchable-not-deterministic:{}", ctx, col), json!(hex::encode(pt))); }
+        }
+        if let Some(prev) = seen_rev.insert((pid, col, ct.to_string()), pt.to_vec()) {
+            if prev != pt { oracle_fail(fails, format!("{}:searchable-collision:{}", ctx, col), json!(ct)); }
+        }
+    };
+    let items = raw["items"].as_array().cloned().unwrap_or_default();
+    let tags = raw["tags"].as_array().cloned().unwrap_or_default();
+    let mut value_nonces = BTreeSet::new();
+    for it in &items {
+        let id = it[0].as_i64().unwrap_or(0);
+        let Some((pid, rec)) = plain.get(&id) else { oracle_fail(fails, format!("{}:unexpected-row", ctx), json!(id)); continue };
+        if it[1].as_i64() != Some(*pid) { oracle_fail(fails, format!("{}:row-in-wrong-profile", ctx), json!(id)); }
+        if it[2].as_i64() != Some(rec.kind) { oracle_fail(fails, format!("{}:kind-column", ctx), json!([it[2], rec.kind])); }
+        check(*pid, "category", rec.cat.as_bytes(), it[3].as_str().unwrap_or(""), fails);
+        check(*pid, "name", rec.name.as_bytes(), it[4].as_str().unwrap_or(""), fails);
+        let v = it[5].as_str().unwrap_or("");
+        if v.len() / 2 != rec.value.len() + 28 { oracle_fail(fails, format!("{}:value-length", ctx), json!({"pt": rec.value.len(), "ct": v.len() / 2})); }
+        if !value_nonces.insert(v.get(..24).unwrap_or("").to_string()) { oracle_fail(fails, format!("{}:value-nonce-repeats", ctx), json!(id)); }
+        if !rec.value.is_empty() && v.contains(&hex::encode(&rec.value)) && rec.value.len() >= 4 { oracle_fail(fails, format!("{}:value-in-clear", ctx), json!(id)); }
+        let mine: Vec<&Value> = tags.iter().filter(|t| t[1].as_i64() == Some(id)).collect();
+        if mine.len() != rec.tags.len() { oracle_fail(fails, format!("{}:tag-row-count", ctx), json!([mine.len(), rec.tags.len()])); continue; }
+        // tag rows are written in the order given
+        for (row, t) in mine.iter().zip(rec.tags.iter()) {
+            check(*pid, "tag-name", t.name.as_bytes(), row[2].as_str().unwrap_or(""), fails);
+            if (row[4].as_i64() == Some(1)) != t.plain { oracle_fail(fails, format!("{}:tag-plaintext-flag", ctx), json!(id)); }
+            if t.plain {
+                if row[3].as_str().unwrap_or("") != hex::encode(t.value.as_bytes()) { oracle_fail(fails, format!("{}:plaintext-tag-value-not-stored-as-is", ctx), json!(id)); }
+                *feat.entry("plain_tags".into()).or_default() += 1;
+            } else {
+                check(*pid, "tag-value", t.value.as_bytes(), row[3].as_str().unwrap_or(""), fails);
+                *feat.entry("enc_tags".into()).or_default() += 1;
+            }
+        }
+        if let Some(e) = it[6].as_str() {
+            // RFC 3339, UTC offset, as sqlx writes chrono::DateTime<Utc>
+            let b = e.as_bytes();
+            let ok = b.len() >= 25 && b[4] == b'-' && b[7] == b'-' && b[10] == b'T' && b[13] == b':' && b[16] == b':' && e.ends_with("+00:00");
+            if !ok { oracle_fail(fails, format!("{}:expiry-text-shape", ctx), json!(e)); }
+            *feat.entry("expiry_rows".into()).or_default() += 1;
+        }
+    }
+    if items.len() != plain.len() { oracle_fail(fails, format!("{}:row-count", ctx), json!([items.len(), plain.len()])); }
+}
+
+// ---------------------------------------------------------------------------------------------
+// library-side helpers
+
+fn close(b: AnyBackend) {
+    block_on(async move { b.close().await.ok(); drop(b); });
+}
+
+/// every profile's dump, default profile, as the library reports them
+fn library_view(b: &AnyBackend) -> Result<(Value, String), askar_storage::Error> {
+    let (names, default) = block_on(async { Ok::<_, askar_storage::Error>((b.list_profiles().await?, b.get_default_profile().await?)) })?;
+    let mut m = Map::new();
+    for n in names { m.insert(n.clone(), dump_profile(b, &n)?); }
+    Ok((Value::Object(m), default))
+}
+
+fn rec_of(j: &Value) -> Rec {
+    Rec { kind: j["k"].as_i64().unwrap_or(2), cat: s(j, "c"), name: s(j, "n"), value: value_from_json(&j["v"]),
+          tags: tags_from_json(&j["t"]).unwrap_or_default() }
+}
+
+// ---------------------------------------------------------------------------------------------
+// c09:read
+
+fn exec_read(case: &Value, tag: &str) -> Value {
+    let method = s(case, "method");
+    let pass = s(case, "pass");
+    let path = format!("{}/c09r-{}.db", scratch_dir(), tag);
+    cleanup(&Some(path.clone()));
+    let uri = format!("sqlite://{}", path);
+    let profiles = case["profiles"].as_array().cloned().unwrap_or_default();
+    let default = s(&profiles[0], "name");
+    let mut fails = vec![];
+    let mut feat: BTreeMap<String, u64> = BTreeMap::new();
+    let mut last = None;
+    let mut backend = None;
+    for attempt in 0..10 {
+        match block_on(async { uri.as_str().provision_backend(method_of(&method), passkey(&method, &pass), Some(default.clone()), true).await }) {
+            Ok(b) => { backend = Some(b); break }
+            Err(e) => { last = Some(e); std::thread::sleep(std::time::Duration::from_millis(20 * (attempt + 1))); }
+        }
+    }
+    let Some(backend) = backend else { return json!({"out": {"err": format!("provision:{}", err_name(last.unwrap().kind()))}, "oracle": [{"sig": format!("read:provision-failed:{}", method)}]}) };
+    // reference: what the store must contain (insertion order = id order; replace keeps the row, remove drops it)
+    let mut reference: BTreeMap<String, Vec<Rec>> = BTreeMap::new();
+    let res: Result<(), askar_storage::Error> = block_on(async {
+        for (i, p) in profiles.iter().enumerate() {
+            let pname = s(p, "name");
+            if i > 0 { backend.create_profile(Some(pname.clone())).await?; }
+            let recs = reference.entry(pname.clone()).or_default();
+            let mut sess = backend.session(Some(pname.clone()), false)?;
+            for op in p["ops"].as_array().cloned().unwrap_or_default() {
+                let r = rec_of(&op);
+                let tags: Vec<_> = r.tags.iter().map(Tag::to_entry_tag).collect();
+                match s(&op, "op").as_str() {
+                    "insert" => {
+                        sess.update(kind_of(r.kind), EntryOperation::Insert, &r.cat, &r.name, Some(&r.value), Some(&tags), op["e"].as_i64()).await?;
+                        recs.push(r);
+                    }
+                    "replace" => {
+                        sess.update(kind_of(r.kind), EntryOperation::Replace, &r.cat, &r.name, Some(&r.value), Some(&tags), op["e"].as_i64()).await?;
+                        if let Some(x) = recs.iter_mut().find(|x| x.kind == r.kind && x.cat == r.cat && x.name == r.name) { *x = r; }
+                    }
+                    _ => {
+                        sess.update(kind_of(r.kind), EntryOperation::Remove, &r.cat, &r.name, None, None, None).await?;
+                        recs.retain(|x| !(x.kind == r.kind && x.cat == r.cat && x.name == r.name));
+                    }
+                }
+            }
+            sess.close(true).await?;
+            drop(sess);
+        }
+        Ok(())
+    });
+    if let Err(e) = res {
+        close(backend);
+        cleanup(&Some(path));
+        return json!({"out": {"err": format!("write-ops:{}", err_name(e.kind()))}, "oracle": [{"sig": format!("read:ops-failed:{}:{}", err_name(e.kind()), method)}]});
+    }
+    let view = library_view(&backend);
+    close(backend);
+    let (dump, lib_default) = match view {
+        Ok(v) => v,
+        Err(e) => { cleanup(&Some(path)); return json!({"out": {"err": format!("dump:{}", err_name(e.kind()))}, "oracle": [{"sig": format!("read:dump-failed:{}:{}", err_name(e.kind()), method)}]}) }
+    };
+    let expected: Map<String, Value> = reference.iter().map(|(k, v)| (k.clone(), Value::Array(v.iter().map(Rec::to_json).collect()))).collect();
+    if Value::Object(expected) != dump { oracle_fail(&mut fails, format!("read:library-dump-differs-from-written:{}", method), json!(null)); }
+    let raw = match raw_dump(&path) { Ok(r) => r, Err(e) => { cleanup(&Some(path)); return json!({"out": {"err": format!("raw:{}", e)}, "oracle": [{"sig": "read:raw-dump-failed"}]}) } };
+    // plaintext by item id: rows appear in id order per the reference (ids are global, ascending in write order; a removed
+    // maximum id is reused, so map by decrypting nothing: walk the raw rows profile by profile in id order)
+    let mut plain: BTreeMap<i64, (i64, Rec)> = BTreeMap::new();
+    for p in raw["profiles"].as_array().cloned().unwrap_or_default() {
+        let pid = p[0].as_i64().unwrap_or(0);
+        let name = p[1].as_str().unwrap_or("").to_string();
+        let ids: Vec<i64> = raw["items"].as_array().cloned().unwrap_or_default().iter().filter(|it| it[1].as_i64() == Some(pid)).map(|it| it[0].as_i64().unwrap_or(0)).collect();
+        let recs = reference.get(&name).cloned().unwrap_or_default();
+        if ids.len() == recs.len() { for (id, r) in ids.iter().zip(recs.into_iter()) { plain.insert(*id, (pid, r)); } }
+        else { oracle_fail(&mut fails, format!("read:row-count-in-profile:{}", method), json!([name, ids.len(), recs.len()])); }
+    }
+    format_oracle("read", &method, &raw, Some(&plain), &mut fails, &mut feat);
+    let mut model_input = json!({"raw": raw});
+    let cfg_key = raw["config"].as_array().and_then(|a| a.iter().find(|r| r[0] == "key")).map(|r| r[1].as_str().unwrap_or("").to_string()).unwrap_or_default();
+    let cfg_ver = raw["config"].as_array().and_then(|a| a.iter().find(|r| r[0] == "version")).map(|r| r[1].clone()).unwrap_or(Value::Null);
+    if method.starts_with("kdf") {
+        if let Some((level, salt)) = split_kdf_entry(&cfg_key) {
+            match derive_doc(&level, &pass, &salt) {
+                Ok(k) => { model_input["kdf"] = kdf_json(&level, &salt, &k); }
+                Err(e) => oracle_fail(&mut fails, "read:argon2-crate-failed".into(), json!(e)),
+            }
+        }
+    }
+    let names: Vec<Value> = raw["config"].as_array().cloned().unwrap_or_default().iter().map(|r| r[0].clone()).collect();
+    *feat.entry(format!("method_{}", method.replace(':', "_"))).or_default() += 1;
+    *feat.entry("rows".into()).or_default() += raw["items"].as_array().map_or(0, |a| a.len()) as u64;
+    *feat.entry("profiles".into()).or_default() += profiles.len() as u64;
+    let out = json!({
+        "config": {"default_profile": lib_default, "key": cfg_key, "version": cfg_ver, "names": names},
+        "profiles": dump,
+        "det": det_of(&model_input["raw"]),
+        "spec_verdict": {"profile_keys_canonical_cbor": true},
+    });
+    cleanup(&Some(path));
+    json!({"out": out, "oracle": fails, "feat": feat, "model_input": model_input})
+}
+
+// ---------------------------------------------------------------------------------------------
+// c09:write
+
+/// DDL of the released format (`provision.rs::init_db` of the pinned tree), without the three INSERTs.
+const DDL: &str = r#"
+    CREATE TABLE config (
+        name TEXT NOT NULL,
+        value TEXT,
+        PRIMARY KEY (name)
+    );
+    CREATE TABLE profiles (
+        id INTEGER NOT NULL,
+        name TEXT NOT NULL,
+        reference TEXT NULL,
+        profile_key BLOB NULL,
+        PRIMARY KEY(id)
+    );
+    CREATE UNIQUE INDEX ix_profile_name ON profiles (name);
+    CREATE TABLE items (
+        id INTEGER NOT NULL,
+        profile_id INTEGER NOT NULL,
+        kind INTEGER NOT NULL,
+        category BLOB NOT NULL,
+        name BLOB NOT NULL,
+        value BLOB NOT NULL,
+        expiry DATETIME NULL,
+        PRIMARY KEY (id),
+        FOREIGN KEY (profile_id) REFERENCES profiles (id)
+            ON DELETE CASCADE ON UPDATE CASCADE
+    );
+    CREATE UNIQUE INDEX ix_items_uniq ON items (profile_id, kind, category, name);
+    CREATE TABLE items_tags (
+        id INTEGER NOT NULL,
+        item_id INTEGER NOT NULL,
+        name BLOB NOT NULL,
+        value BLOB NOT NULL,
+        plaintext BOOLEAN NOT NULL,
+        PRIMARY KEY (id),
+        FOREIGN KEY (item_id) REFERENCES items (id)
+            ON DELETE CASCADE ON UPDATE CASCADE
+    );
+    CREATE INDEX ix_items_tags_item_id ON items_tags (item_id);
+    CREATE INDEX ix_items_tags_name_enc ON items_tags (name, SUBSTR(value, 1, 12)) WHERE plaintext=0;
+    CREATE INDEX ix_items_tags_name_plain ON items_tags (name, value) WHERE plaintext=1;
+"#;
+
+fn model_bin() -> String {
+    std::env::var("VERIF_MODEL_C09").unwrap_or_else(|_| concat!(env!("CARGO_MANIFEST_DIR"), "/../lean/.lake/build/bin/askar_model_c09").to_string())
+}
+
+/// ask the compiled Lean driver for the rows of the case
+fn lean_rows(case: &Value) -> Result<Value, String> {
+    let mut c = case.clone();
+    c["emit"] = json!("rows");
+    let mut child = std::process::Command::new(model_bin())
+        .stdin(std::process::Stdio::piped()).stdout(std::process::Stdio::piped()).stderr(std::process::Stdio::null())
+        .spawn().map_err(|e| format!("spawn {}: {}", model_bin(), e))?;
+    let line = serde_json::to_string(&c).unwrap();
+    let mut stdin = child.stdin.take().unwrap();
+    let writer = std::thread::spawn(move || { stdin.write_all(line.as_bytes()).ok(); stdin.write_all(b"\n").ok(); });
+    let out = child.wait_with_output().map_err(|e| e.to_string())?;
+    writer.join().ok();
+    let text = String::from_utf8_lossy(&out.stdout);
+    let v: Value = serde_json::from_str(text.lines().next().unwrap_or("")).map_err(|e| format!("driver output: {}", e))?;
+    if v["out"]["items"].is_array() { Ok(v["out"].clone()) } else { Err(format!("driver: {}", v)) }
+}
+
+fn blob(v: &Value) -> Val { Val::Blob(hex::decode(v.as_str().unwrap_or("")).unwrap_or_default()) }
+
+fn build_file(path: &str, rows: &Value) -> Result<(), String> {
+    std::fs::File::create(path).map_err(|e| e.to_string())?; // an empty file is an empty SQLite database
+    let db = RawDb::open(path)?;
+    db.exec("BEGIN")?;
+    db.exec(DDL)?;
+    for r in rows["config"].as_array().cloned().unwrap_or_default() {
+        db.query("INSERT INTO config (name, value) VALUES (?1, ?2)", &[Val::Text(r[0].as_str().unwrap_or("").into()), Val::Text(r[1].as_str().unwrap_or("").into())])?;
+    }
+    for r in rows["profiles"].as_array().cloned().unwrap_or_default() {
+        db.query("INSERT INTO profiles (id, name, profile_key) VALUES (?1, ?2, ?3)", &[Val::Int(r[0].as_i64().unwrap_or(0)), Val::Text(r[1].as_str().unwrap_or("").into()), blob(&r[2])])?;
+    }
+    for r in rows["items"].as_array().cloned().unwrap_or_default() {
+        db.query("INSERT INTO items (id, profile_id, kind, category, name, value, expiry) VALUES (?1, ?2, ?3, ?4, ?5, ?6, ?7)",
+            &[Val::Int(r[0].as_i64().unwrap_or(0)), Val::Int(r[1].as_i64().unwrap_or(0)), Val::Int(r[2].as_i64().unwrap_or(0)), blob(&r[3]), blob(&r[4]), blob(&r[5]),
+              r[6].as_str().map_or(Val::Null, |e| Val::Text(e.into()))])?;
+    }
+    for r in rows["tags"].as_array().cloned().unwrap_or_default() {
+        db.query("INSERT INTO items_tags (item_id, name, value, plaintext) VALUES (?1, ?2, ?3, ?4)",
+            &[Val::Int(r[0].as_i64().unwrap_or(0)), blob(&r[1]), blob(&r[2]), Val::Int(r[3].as_i64().unwrap_or(0))])?;
+    }
+    db.exec("COMMIT")
+}
+
+/// number of records having at least one tag equal to (plain, name, value)
+fn ref_tag_hits(recs: &[Rec], t: &Tag) -> u64 { recs.iter().filter(|r| r.tags.iter().any(|x| x == t)).count() as u64 }
+
+fn exec_write(case: &Value, tag: &str) -> Value {
+    let method = s(case, "method");
+    let pass = s(case, "pass");
+    let path = format!("{}/c09w-{}.db", scratch_dir(), tag);
+    cleanup(&Some(path.clone()));
+    let mut fails = vec![];
+    let mut feat: BTreeMap<String, u64> = BTreeMap::new();
+    let rows = match lean_rows(case) { Ok(r) => r, Err(e) => return json!({"out": {"err": e}, "oracle": [{"sig": "write:lean-driver-unavailable"}]}) };
+    if let Err(e) = build_file(&path, &rows) { cleanup(&Some(path)); return json!({"out": {"err": format!("build: {}", e)}, "oracle": [{"sig": "write:file-build-failed", "detail": e}]}); }
+    // the rows the spec wrote obey the documented lengths too (judged here, not by the spec)
+    let uri = format!("sqlite://{}", path);
+    let backend = match block_on(async { uri.as_str().open_backend(Some(method_of(&method)), passkey(&method, &pass), None).await }) {
+        Ok(b) => b,
+        Err(e) => {
+            cleanup(&Some(path));
+            return json!({"out": {"err": format!("open:{}", err_name(e.kind()))}, "feat": feat,
+                          "oracle": [{"sig": format!("write:library-cannot-open-spec-written-store:{}:{}", err_name(e.kind()), method), "detail": format!("{:?}", e)}]});
+        }
+    };
+    // the case's visible records, per profile
+    let mut expected: BTreeMap<String, Vec<Rec>> = BTreeMap::new();
+    for p in case["profiles"].as_array().cloned().unwrap_or_default() {
+        let recs: Vec<Rec> = p["recs"].as_array().cloned().unwrap_or_default().iter().filter(|r| r["exp"].as_str() != Some("past")).map(rec_of).collect();
+        expected.insert(s(&p, "name"), recs);
+    }
+    let view = library_view(&backend);
+    let mut fetched = 0u64;
+    let mut tag_hits = 0u64;
+    let mut probe_err = None;
+    for (pname, recs) in &expected {
+        let r: Result<(), askar_storage::Error> = block_on(async {
+            let mut sess = backend.session(Some(pname.clone()), false)?;
+            for r in recs {
+                // searchable category / name: the library looks the row up by the ciphertext IT computes
+                if let Some(e) = sess.fetch(kind_of(r.kind), &r.cat, &r.name, false).await? {
+                    if Rec::from_entry(&e).to_json() == r.to_json() { fetched += 1; }
+                }
+            }
+            // searchable tag names / values: equality filters for every distinct tag
+            let distinct: BTreeSet<Tag> = recs.iter().flat_map(|r| r.tags.iter().cloned()).filter(|t| !t.name.starts_with('~')).collect();
+            for t in &distinct {
+                let f = TagFilter::is_eq(if t.plain { format!("~{}", t.name) } else { t.name.clone() }, t.value.clone());
+                let n = sess.count(None, None, Some(f)).await? as u64;
+                let want = ref_tag_hits(recs, t);
+                if n != want { oracle_fail(&mut fails, format!("write:tag-filter-count:{}", if t.plain { "plain" } else { "enc" }), json!({"tag": t.to_json(), "got": n, "want": want})); }
+                tag_hits += n;
+            }
+            sess.close(true).await?;
+            drop(sess);
+            Ok(())
+        });
+        if let Err(e) = r { probe_err = Some(e); break; }
+    }
+    close(backend);
+    cleanup(&Some(path));
+    if let Some(e) = probe_err {
+        return json!({"out": {"err": format!("probe:{}", err_name(e.kind()))}, "feat": feat,
+                      "oracle": [{"sig": format!("write:library-cannot-read-spec-written-store:{}:{}", err_name(e.kind()), method), "detail": format!("{:?}", e)}]});
+    }
+    let (dump, lib_default) = match view {
+        Ok(v) => v,
+        Err(e) => return json!({"out": {"err": format!("dump:{}", err_name(e.kind()))}, "feat": feat,
+                                "oracle": [{"sig": format!("write:library-cannot-read-spec-written-store:{}:{}", err_name(e.kind()), method), "detail": format!("{:?}", e)}]}),
+    };
+    let want: Map<String, Value> = expected.iter().map(|(k, v)| (k.clone(), Value::Array(v.iter().map(Rec::to_json).collect()))).collect();
+    if Value::Object(want) != dump { oracle_fail(&mut fails, format!("write:library-shows-different-contents:{}", method), json!(null)); }
+    let visible: u64 = expected.values().map(|v| v.len() as u64).sum();
+    if fetched != visible { oracle_fail(&mut fails, format!("write:fetch-by-category-name:{}", method), json!({"fetched": fetched, "visible": visible})); }
+    if lib_default != s(case, "default_profile") { oracle_fail(&mut fails, "write:default-profile".into(), json!(lib_default)); }
+    *feat.entry(format!("method_{}", method.replace(':', "_"))).or_default() += 1;
+    *feat.entry("rows".into()).or_default() += rows["items"].as_array().map_or(0, |a| a.len()) as u64;
+    *feat.entry("tag_filters".into()).or_default() += 1;
+    let out = json!({"default_profile": lib_default, "profiles": dump, "fetched": fetched, "tag_hits": tag_hits,
+                     "n_items": rows["items"].as_array().map_or(0, |a| a.len()), "n_tags": rows["tags"].as_array().map_or(0, |a| a.len())});
+    json!({"out": out, "oracle": fails, "feat": feat})
+}
+
+// ---------------------------------------------------------------------------------------------
+// c09:golden
+
+fn golden_dir() -> String {
+    std::env::var("VERIF_GOLDEN").unwrap_or_else(|_| concat!(env!("CARGO_MANIFEST_DIR"), "/../golden").to_string())
+}
+
+fn exec_golden(case: &Value, tag: &str) -> Value {
+    let file = s(case, "file");
+    let meta: Value = match std::fs::read_to_string(format!("{}/{}.json", golden_dir(), file)).ok().and_then(|t| serde_json::from_str(&t).ok()) {
+        Some(m) => m,
+        None => return json!({"out": {"err": "golden meta missing"}, "oracle": [{"sig": format!("golden:corpus-file-missing:{}", file)}]}),
+    };
+    let method = s(&meta, "method");
+    let pass = s(&meta, "pass");
+    let path = format!("{}/c09g-{}.db", scratch_dir(), tag);
+    cleanup(&Some(path.clone()));
+    if std::fs::copy(format!("{}/{}.db", golden_dir(), file), &path).is_err() {
+        return json!({"out": {"err": "golden db missing"}, "oracle": [{"sig": format!("golden:corpus-file-missing:{}", file)}]});
+    }
+    let mut fails = vec![];
+    let mut feat: BTreeMap<String, u64> = BTreeMap::new();
+    // the Lean side reads the file as the pinned tree left it (before the current code touches it)
+    let raw = match raw_dump(&path) { Ok(r) => r, Err(e) => { cleanup(&Some(path)); return json!({"out": {"err": format!("raw:{}", e)}, "oracle": [{"sig": "golden:raw-dump-failed"}]}) } };
+    let uri = format!("sqlite://{}", path);
+    let opened = block_on(async { uri.as_str().open_backend(Some(method_of(&method)), passkey(&method, &pass), None).await });
+    let backend = match opened {
+        Ok(b) => b,
+        Err(e) => {
+            cleanup(&Some(path));
+            return json!({"out": {"err": format!("open:{}", err_name(e.kind()))},
+                          "oracle": [{"sig": format!("golden:current-code-cannot-open:{}:{}", err_name(e.kind()), method), "detail": format!("{:?}", e)}]});
+        }
+    };
+    let view = library_view(&backend);
+    close(backend);
+    let (dump, lib_default) = match view {
+        Ok(v) => v,
+        Err(e) => { cleanup(&Some(path)); return json!({"out": {"err": format!("dump:{}", err_name(e.kind()))},
+                      "oracle": [{"sig": format!("golden:current-code-cannot-read:{}:{}", err_name(e.kind()), method), "detail": format!("{:?}", e)}]}) }
+    };
+    if dump != meta["profiles"] { oracle_fail(&mut fails, format!("golden:contents-differ-from-recorded:{}", method), json!(null)); }
+    if lib_default != s(&meta, "default_profile") { oracle_fail(&mut fails, format!("golden:default-profile:{}", method), json!(lib_default)); }
+    format_oracle("golden", &method, &raw, None, &mut fails, &mut feat);
+    let mut model_input = json!({"raw": raw, "pass": pass, "method": method});
+    let cfg_key = raw["config"].as_array().and_then(|a| a.iter().find(|r| r[0] == "key")).map(|r| r[1].as_str().unwrap_or("").to_string()).unwrap_or_default();
+    let cfg_ver = raw["config"].as_array().and_then(|a| a.iter().find(|r| r[0] == "version")).map(|r| r[1].clone()).unwrap_or(Value::Null);
+    if method.starts_with("kdf") {
+        if let Some((level, salt)) = split_kdf_entry(&cfg_key) {
+            match derive_doc(&level, &pass, &salt) {
+                Ok(k) => { model_input["kdf"] = kdf_json(&level, &salt, &k); }
+                Err(e) => oracle_fail(&mut fails, "golden:argon2-crate-failed".into(), json!(e)),
+            }
+        }
+    }
+    let names: Vec<Value> = raw["config"].as_array().cloned().unwrap_or_default().iter().map(|r| r[0].clone()).collect();
+    *feat.entry(format!("golden_{}", method.replace(':', "_"))).or_default() += 1;
+    *feat.entry("rows".into()).or_default() += raw["items"].as_array().map_or(0, |a| a.len()) as u64;
+    let out = json!({
+        "config": {"default_profile": lib_default, "key": cfg_key, "version": cfg_ver, "names": names},
+        "profiles": dump,
+        "det": det_of(&model_input["raw"]),
+        "spec_verdict": {"profile_keys_canonical_cbor": true},
+    });
+    cleanup(&Some(path));
+    json!({"out": out, "oracle": fails, "feat": feat, "model_input": model_input})
+}
+
+// ---------------------------------------------------------------------------------------------
+// c09:consts — read from the source text of the tree this harness was built against
+
+const SRC_ARGON2: &str = include_str!("/repo/askar-crypto/src/kdf/argon2.rs");
+const SRC_LEVEL: &str = include_str!("/repo/askar-storage/src/protect/kdf/argon2.rs");
+const SRC_KDF: &str = include_str!("/repo/askar-storage/src/protect/kdf/mod.rs");
+const SRC_STORE_KEY: &str = include_str!("/repo/askar-storage/src/protect/store_key.rs");
+const SRC_PROFILE_KEY: &str = include_str!("/repo/askar-storage/src/protect/profile_key.rs");
+const SRC_PROVISION: &str = include_str!("/repo/askar-storage/src/backend/sqlite/provision.rs");
+
+fn between<'a>(src: &'a str, start: &str, end: &str) -> Option<&'a str> {
+    let i = src.find(start)? + start.len();
+    let j = src[i..].find(end)? + i;
+    Some(&src[i..j])
+}
+
+fn str_const(src: &str, name: &str) -> Value {
+    match between(src, &format!("const {}: &str = \"", name), "\"") { Some(x) => json!(x), None => json!({"err": format!("{} not found", name)}) }
+}
+
+fn params_const(name: &str) -> Value {
+    let Some(body) = between(SRC_ARGON2, &format!("pub const {}: Params = Params {{", name), "};") else { return json!({"err": format!("{} not found", name)}) };
+    let field = |f: &str| -> Option<String> { Some(between(body, &format!("{}:", f), ",")?.trim().to_string()) };
+    let num = |f: &str| -> Value { field(f).and_then(|x| x.replace('_', "").parse::<u64>().ok()).map_or(json!({"err": f}), |n| json!(n)) };
+    json!({"alg": field("alg").map(|x| x.replace("Algorithm::", "")), "version": field("version").map(|x| x.replace("Version::", "")),
+           "mem_cost": num("mem_cost"), "time_cost": num("time_cost")})
+}
+
+fn schema_of_source() -> Value {
+    let mut out = vec![];
+    let mut rest = SRC_PROVISION;
+    while let Some(i) = rest.find("CREATE TABLE ") {
+        rest = &rest[i + "CREATE TABLE ".len()..];
+        let Some(p) = rest.find('(') else { break };
+        let table = rest[..p].trim().to_string();
+        let Some(end) = rest.find(");") else { break };
+        let body = &rest[p + 1..end];
+        let mut cols: Vec<(String, String, bool)> = vec![];
+        let mut pk: Vec<String> = vec![];
+        for line in body.lines() {
+            let l = line.trim().trim_end_matches(',');
+            if l.is_empty() || l.starts_with("ON DELETE") { continue; }
+            if let Some(x) = l.strip_prefix("PRIMARY KEY") {
+                pk = x.trim().trim_start_matches('(').trim_end_matches(')').split(',').map(|c| c.trim().to_string()).collect();
+            } else if l.starts_with("FOREIGN KEY") { continue; }
+            else {
+                let w: Vec<&str> = l.split_whitespace().collect();
+                if w.len() >= 2 { cols.push((w[0].to_string(), w[1].to_string(), l.contains("NOT NULL"))); }
+            }
+        }
+        out.push(json!([table, cols.iter().map(|(n, t, nn)| json!([n, t, nn, pk.contains(n)])).collect::<Vec<_>>()]));
+        rest = &rest[end..];
+    }
+    Value::Array(out)
+}
+
+fn exec_consts() -> Value {
+    use askar_crypto::alg::chacha20::{Chacha20Key, C20P};
+    let salt = between(SRC_ARGON2, "pub type SaltSize = U", ";").and_then(|x| x.parse::<u64>().ok());
+    // serde attributes of ProfileKeyImpl, in declaration order
+    let tag_attr = between(SRC_PROFILE_KEY, "#[serde(tag = \"", "\")]").map(|x| x.to_string()).unwrap_or_default(); // ver", rename = "1
+    let (tag, tag_value) = tag_attr.split_once("\", rename = \"").map(|(a, b)| (a.to_string(), b.to_string())).unwrap_or_default();
+    let mut fields = vec![];
+    let body = between(SRC_PROFILE_KEY, "pub struct ProfileKeyImpl<Key, HmacKey> {", "}").unwrap_or("");
+    let mut rest = body;
+    while let Some(x) = between(rest, "#[serde(rename = \"", "\")]") {
+        fields.push(x.to_string());
+        rest = &rest[rest.find(x).unwrap() + x.len()..];
+    }
+    // config rows of init_db
+    let ins = between(SRC_PROVISION, "INSERT INTO config (name, value) VALUES", ";").unwrap_or("");
+    let mut rows = vec![];
+    let mut version = Value::Null;
+    for part in ins.split('(').skip(1) {
+        let mut q = part.split('"');
+        q.next();
+        let name = q.next().unwrap_or("").to_string();
+        q.next();
+        if name == "version" { version = json!(q.next().unwrap_or("")); }
+        rows.push(name);
+    }
+    let out = json!({
+        "argon2": {"PARAMS_INTERACTIVE": params_const("PARAMS_INTERACTIVE"), "PARAMS_MODERATE": params_const("PARAMS_MODERATE"),
+                   "salt_len": salt, "LEVEL_INTERACTIVE": str_const(SRC_LEVEL, "LEVEL_INTERACTIVE"), "LEVEL_MODERATE": str_const(SRC_LEVEL, "LEVEL_MODERATE")},
+        "prefixes": [str_const(SRC_STORE_KEY, "PREFIX_KDF"), str_const(SRC_STORE_KEY, "PREFIX_RAW"), str_const(SRC_STORE_KEY, "PREFIX_NONE"), str_const(SRC_KDF, "METHOD_ARGON2I")],
+        "cbor": {"tag": tag, "tag_value": tag_value, "fields": fields},
+        "config_rows": rows,
+        "version": version,
+        "sizes": {"nonce": Chacha20Key::<C20P>::NONCE_LENGTH, "tag": Chacha20Key::<C20P>::TAG_LENGTH, "key": Chacha20Key::<C20P>::KEY_LENGTH},
+        "schema": schema_of_source(),
+    });
+    json!({"out": out, "oracle": [], "feat": {"consts": 1}})
+}
+
+// ---------------------------------------------------------------------------------------------
+// c09:b58
+
+fn exec_b58(case: &Value) -> Value {
+    let mut out = vec![];
+    let mut fails = vec![];
+    for op in case["ops"].as_array().cloned().unwrap_or_default() {
+        if s(&op, "op") == "enc" {
+            let b = hex::decode(s(&op, "b")).unwrap_or_default();
+            let e = bs58::encode(&b).into_string();
+            if bs58::decode(&e).into_vec().ok() != Some(b) { oracle_fail(&mut fails, "b58:crate-round-trip".into(), json!(e)); }
+            out.push(json!(e));
+        } else {
+            match bs58::decode(s(&op, "s")).into_vec() { Ok(b) => out.push(json!(hex::encode(b))), Err(_) => out.push(json!({"err": "Input"})) }
+        }
+    }
+    json!({"out": out, "oracle": fails, "feat": {"b58_ops": out.len()}})
+}
+
+// ---------------------------------------------------------------------------------------------
+
+pub fn exec(case: &Value, tag: &str) -> Value {
+    match s(case, "kind").as_str() {
+        "c09:selftest" => json!({"out": {"cbor": true, "base58": true, "hmac": true, "chachapoly": true, "hmac_expected": true}, "oracle": [], "feat": {"selftest": 1}}),
+        "c09:consts" => exec_consts(),
+        "c09:b58" => exec_b58(case),
+        "c09:read" => exec_read(case, tag),
+        "c09:write" => exec_write(case, tag),
+        "c09:golden" => exec_golden(case, tag),
+        k => json!({"out": {"err": format!("unknown kind {}", k)}, "oracle": [{"sig": "c09:unknown-kind"}]}),
+    }
+}
+
+// ---------------------------------------------------------------------------------------------
+// generators
+
+const PROFILES: &[&str] = &["default", "p2", "профиль", "p 3", "", "P2"];
+const CATS: &[&str] = &["c1", "c2", "", "cat\u{0}nul", "ca\u{301}t-\u{1F600}", "~c", "%", "c1 ", "category-with-a-rather-long-name-that-spans-more-than-one-chacha-block-0123456789"];
+const NAMES: &[&str] = &["n1", "n2", "n3", "", "n\u{0}", "名前", "n'\"\\", "$n", "n1\u{200d}"];
+const TAG_NAMES: &[&str] = &["a", "b", "n", "", "t:1", "ü", "a\u{0}b", "$exist", "user:x", "~"];
+const TAG_VALUES: &[&str] = &["1", "2", "10", "x", "", "abc", "ABC", "a%c", "ü", "a\u{0}z", "\u{10FFFF}", "0123456789abcdef0123456789"];
+
+fn gen_value(r: &mut Rng) -> Value {
+    match r.below(12) {
+        0 => json!(""),
+        1 => json!(hex::encode(r.bytes(1))),
+        2 => json!(hex::encode("значение-値-\u{1F511}".as_bytes())),
+        3 => { let n = *r.pick(&[15usize, 16, 17, 63, 64, 65, 255, 256, 257]); json!(hex::encode(r.bytes(n))) }
+        4 => json!({"fill": r.below(256), "salt": 1 + r.below(250), "len": 600 + r.below(3000)}),
+        5 => json!(hex::encode([0xff, 0xfe, 0x00, 0x80, 0xc0])), // not UTF-8
+        _ => { let n = r.below(40); json!(hex::encode(r.bytes(n))) }
+    }
+}
+
+fn gen_tags(r: &mut Rng) -> Value {
+    let n = *r.pick(&[0usize, 0, 1, 2, 3, 5]);
+    let mut v: Vec<Value> = (0..n).map(|_| json!([if r.chance(1, 2) { 1 } else { 0 }, *r.pick(TAG_NAMES), *r.pick(TAG_VALUES)])).collect();
+    if n > 1 && r.chance(1, 4) { let d = v[0].clone(); v.push(d); }
+    Value::Array(v)
+}
+
+fn gen_recs(r: &mut Rng, n: usize) -> Vec<Value> {
+    let mut seen = BTreeSet::new();
+    let mut out = vec![];
+    for _ in 0..n * 3 {
+        if out.len() >= n { break; }
+        let k = if r.chance(1, 3) { 1 } else { 2 };
+        let (c, nm) = (*r.pick(CATS), *r.pick(NAMES));
+        if !seen.insert((k, c, nm)) { continue; }
+        out.push(json!({"k": k, "c": c, "n": nm, "v": gen_value(r), "t": gen_tags(r)}));
+    }
+    out
+}
+
+fn gen_pass(r: &mut Rng, method: &str) -> (String, Vec<u8>) {
+    match method {
+        "raw" => {
+            let mut k = r.bytes(32);
+            if r.chance(1, 4) { k[0] = 0; if r.chance(1, 2) { k[1] = 0; } } // leading zero bytes → leading '1's
+            (bs58::encode(&k).into_string(), k)
+        }
+        "none" => (String::new(), vec![]),
+        _ => ((*r.pick(&["pass", "", "пароль \u{1F511}", "a rather long pass phrase with spaces, 0123456789 0123456789 0123456789 0123456789"])).to_string(), vec![]),
+    }
+}
+
+fn gen_read(r: &mut Rng, id: String, method: &str) -> Value {
+    let (pass, _) = gen_pass(r, method);
+    let np = *r.pick(&[1usize, 1, 2, 3]);
+    let mut names: Vec<&str> = vec![];
+    while names.len() < np { let n = *r.pick(PROFILES); if !names.contains(&n) { names.push(n); } }
+    let mut profiles = vec![];
+    for n in names {
+        let count = *r.pick(&[0usize, 1, 3, 6, 12]);
+        let recs = gen_recs(r, count);
+        let mut ops: Vec<Value> = vec![];
+        for rec in &recs {
+            let mut o = rec.clone();
+            o["op"] = json!("insert");
+            if r.chance(1, 6) { o["e"] = json!(3_600_000 + r.below(1000) as i64); }
+            ops.push(o);
+        }
+        // replace (new value and tags) and remove some of them
+        for rec in &recs {
+            if r.chance(1, 5) {
+                let mut o = json!({"op": "replace", "k": rec["k"], "c": rec["c"], "n": rec["n"], "v": gen_value(r), "t": gen_tags(r)});
+                if r.chance(1, 4) { o["e"] = json!(7_200_000); }
+                ops.push(o);
+            } else if r.chance(1, 8) {
+                ops.push(json!({"op": "remove", "k": rec["k"], "c": rec["c"], "n": rec["n"]}));
+            }
+        }
+        profiles.push(json!({"name": n, "ops": ops}));
+    }
+    json!({"kind": "c09:read", "id": id, "method": method, "pass": pass, "profiles": profiles})
+}
+
+fn gen_write(r: &mut Rng, id: String, method: &str) -> Value {
+    let (pass, raw_key) = gen_pass(r, method);
+    let np = *r.pick(&[1usize, 2, 2, 3]);
+    let mut names: Vec<&str> = vec![];
+    while names.len() < np { let n = *r.pick(PROFILES); if !names.contains(&n) { names.push(n); } }
+    let mut profiles = vec![];
+    for n in &names {
+        let key = json!({"ick": hex::encode(r.bytes(32)), "ink": hex::encode(r.bytes(32)), "ihk": hex::encode(r.bytes(32)),
+                         "tnk": hex::encode(r.bytes(32)), "tvk": hex::encode(r.bytes(32)), "thk": hex::encode(r.bytes(32))});
+        let count = *r.pick(&[0usize, 1, 4, 8]);
+        let mut recs = gen_recs(r, count);
+        for rec in recs.iter_mut() {
+            rec["nonce"] = json!(hex::encode(r.bytes(12)));
+            rec["exp"] = match r.below(8) { 0 => json!("past"), 1 => json!("future"), _ => Value::Null };
+        }
+        profiles.push(json!({"name": n, "key": key, "wrap_nonce": hex::encode(r.bytes(12)), "recs": recs}));
+    }
+    let default = *r.pick(&names);
+    let mut case = json!({"kind": "c09:write", "id": id, "method": method, "pass": pass, "default_profile": default, "profiles": profiles});
+    if method.starts_with("kdf") {
+        let salt = r.bytes(16);
+        let level = &method[4..];
+        case["salt"] = json!(hex::encode(&salt));
+        case["store_key"] = json!(hex::encode(derive_doc(level, &pass, &salt).expect("argon2")));
+    } else if method == "raw" {
+        case["store_key"] = json!(hex::encode(raw_key)); // informational; the spec decodes the pass key itself
+    }
+    case
+}
+
+fn gen_b58(r: &mut Rng, id: String, n: usize) -> Value {
+    let alphabet: Vec<char> = "123456789ABCDEFGHJKLMNPQRSTUVWXYZabcdefghijkmnopqrstuvwxyz".chars().collect();
+    let mut ops = vec![];
+    for i in 0..n {
+        if i % 2 == 0 {
+            let len = match r.below(6) { 0 => 0, 1 => 1, 2 => 32, 3 => 33, _ => r.below(48) };
+            let mut b = r.bytes(len);
+            let z = match r.below(4) { 0 => r.below(len + 1), 1 => 1.min(len), _ => 0 };
+            for x in b.iter_mut().take(z) { *x = 0; }
+            ops.push(json!({"op": "enc", "b": hex::encode(b)}));
+        } else {
+            let len = match r.below(5) { 0 => 0, 1 => 1, 2 => 44, _ => r.below(50) };
+            let mut t: String = (0..len).map(|_| *r.pick(&alphabet)).collect();
+            if r.chance(1, 3) { let ones = r.below(4); t = format!("{}{}", "1".repeat(ones), t); }
+            if r.chance(1, 6) && !t.is_empty() { let bad = *r.pick(&['0', 'O', 'I', 'l', ' ', '+', 'é']); let pos = r.below(t.chars().count()); t = t.chars().enumerate().map(|(i, c)| if i == pos { bad } else { c }).collect(); }
+            ops.push(json!({"op": "dec", "s": t}));
+        }
+    }
+    json!({"kind": "c09:b58", "id": id, "ops": ops})
+}
+
+pub fn gen(r: &mut Rng, thorough: bool, count: Option<usize>) -> Vec<Value> {
+    let mut out = vec![json!({"kind": "c09:selftest", "id": "selftest"}), json!({"kind": "c09:consts", "id": "consts"})];
+    for f in ["raw", "none", "kdf-int", "kdf-mod"] { out.push(json!({"kind": "c09:golden", "id": format!("golden-{}", f), "file": f})); }
+    let scale = count.unwrap_or(if thorough { 20 } else { 1 });
+    for i in 0..2 * scale { out.push(gen_b58(r, format!("b58-{}", i), if thorough { 200 } else { 100 })); }
+    for i in 0..12 * scale { out.push(gen_read(r, format!("read-raw-{}", i), "raw")); }
+    for i in 0..12 * scale { out.push(gen_read(r, format!("read-none-{}", i), "none")); }
+    for i in 0..2 * scale { out.push(gen_read(r, format!("read-int-{}", i), "kdf:int")); }
+    for i in 0..(if thorough { scale } else { 1 }) { out.push(gen_read(r, format!("read-mod-{}", i), "kdf:mod")); }
+    for i in 0..10 * scale { out.push(gen_write(r, format!("write-raw-{}", i), "raw")); }
+    for i in 0..10 * scale { out.push(gen_write(r, format!("write-none-{}", i), "none")); }
+    for i in 0..2 * scale { out.push(gen_write(r, format!("write-int-{}", i), "kdf:int")); }
+    for i in 0..(if thorough { scale / 2 } else { 1 }) { out.push(gen_write(r, format!("write-mod-{}", i), "kdf:mod")); }
+    out
 }
